@@ -148,6 +148,10 @@ class LinkerSolveT(FunctionContract):
             return None
 
         def get_check_values(interp_, closure, args, kwargs, node):
+            # the check vector of iteration j is the one stored at the END of iteration j: after the linker's post-evaluation hook
+            ev = g['events']
+            if ev and ev[-1][0] not in ('evaluate_t_after',) and any(x[0] in ('evaluate_t_before', 'eval') for x in ev):
+                ctx.prove(False, 'check_values_are_read_after_the_post_evaluation_hook_of_the_iteration', 'ensures', note=str(ev[-3:]))
             r = interp_.call(closure, args, kwargs, node)
             if not isinstance(r, dict) or list(r.keys()) != e['judged']:
                 ctx.prove(False, 'get_check_values:one_vector_per_judged_member', 'ensures', note=str(list(r.keys()) if isinstance(r, dict) else r))
